@@ -117,9 +117,58 @@ static std::string shapeOf(const Parser& parser, const Deck& d) {
     return "";
 }
 
+// read the SI data of every dimensioned item, as any consumer of the Deck (EclipseState, Schedule...) does; DeckItem converts its
+// storage in place when asked, and a Deck must print the same text before and after
+static long touchSI(const Deck& d) {
+    long n = 0;
+    for (const auto& kw : d) for (const auto& rec : kw) for (const auto& it : rec) {
+        if (it.getType() == type_tag::fdouble) {
+            bool all = it.data_size() > 0;
+            for (size_t v = 0; v < it.data_size(); ++v) all = all && it.hasValue(v);
+            if (all) { try { (void)it.getSIDoubleData(); ++n; } catch (const std::exception&) {} }
+        } else if (it.getType() == type_tag::uda) {
+            for (size_t v = 0; v < it.data_size(); ++v) if (it.hasValue(v)) { try { (void)it.get<UDAValue>(v).getSI(); ++n; } catch (const std::exception&) {} }
+        }
+    }
+    return n;
+}
+static bool g_touchSI = false;
+
+// token-wise: identical, or both numbers equal to the printed precision.  DeckItem converts raw -> SI -> raw in place; for
+// dimensions with an offset (temperature) that costs up to ~1e-13 absolute (1e-25 degC comes back as 0), which is rounding,
+// not a change of the Deck.
+static bool sameTextUpToRounding(const std::string& a, const std::string& b) {
+    if (a == b) return true;
+    std::istringstream ia(a), ib(b);
+    std::string ta, tb;
+    while (true) {
+        bool ga = (bool)(ia >> ta), gb = (bool)(ib >> tb);
+        if (ga != gb) return false;
+        if (!ga) return true;
+        if (ta == tb) continue;
+        char *ea = nullptr, *eb = nullptr;
+        double va = strtod(ta.c_str(), &ea), vb = strtod(tb.c_str(), &eb);
+        if (*ea != 0 || *eb != 0 || ea == ta.c_str() || eb == tb.c_str()) return false;
+        if (std::fabs(va - vb) > 1.0e-9 * std::max(std::fabs(va), std::fabs(vb)) + 1.0e-12) return false;
+    }
+}
+
 static void checkRoundTrip(vh::Reporter& rep, Env& env, const ParseContext& pc, const Deck& d, const std::string& origin, const std::string& inputText,
                            const DeckT* structure, const std::string& clsOfLast) {
+    std::string tBefore;
+    if (g_touchSI) {
+        tBefore = printDeck(d);
+        rep.count("items_read_in_SI_before_printing", touchSI(d));
+    }
     std::string t1 = printDeck(d);
+    if (g_touchSI) {
+        rep.count("print_before_vs_after_SI_access");
+        if (!sameTextUpToRounding(tBefore, t1)) {
+            rep.violation("print-changes-after-SI-access", "the text printed for a Deck changes once its SI data has been read",
+                          "origin: " + origin + "\n--- input text ---\n" + inputText + "--- printed before SI access ---\n" + tBefore + "--- printed after SI access ---\n" + t1);
+            return;
+        }
+    }
     Deck d2; std::string err; bool threw = false;
     try { ErrorGuard eg; d2 = env.parser.parseString(t1, pc, eg); eg.clear(); }
     catch (const std::exception& e) { threw = true; err = e.what(); }
@@ -173,6 +222,7 @@ int main(int argc, char** argv) {
             Deck d;
             try { ErrorGuard eg; d = env.parser.parseFile(path, pc, eg); eg.clear(); }
             catch (const std::exception&) { rep.count("base_refused"); return; }
+            g_touchSI = (idx % 2) == 0;
             rep.cover("deck", fs::path(path).filename().string());
             for (const auto& kw : d) rep.cover("keyword", kw.name());
             rep.case_done(vh::fnv(path), d.size() > 0);
@@ -190,6 +240,7 @@ int main(int argc, char** argv) {
         // the two shapes that meet the known DeckOutput defect (dropped trailing defaults) are confined to 15% of the cases,
         // so that any other defect is still seen, under its own key, in the remaining 85%
         g.allowAllDefaultRecord = g.allowTrailingDefaultInArray = rng.chance(0.15);
+        g_touchSI = rng.chance(0.5);
         rep.count(g.allowAllDefaultRecord ? "cases_with_default_shapes_enabled" : "cases_without_default_shapes");
         DeckT deck;
         bool multi = idx >= ncat * sweep;
